@@ -3,6 +3,7 @@ package symex
 import (
 	"fmt"
 	"go/token"
+	"math"
 	"math/big"
 
 	"verif/engine/smt"
@@ -207,4 +208,183 @@ func (p *Path) xfToFloat32(x XF) XF {
 	p.assumeOrStop(smt.ILe(smt.IMul(two, diff), pow2(29)))
 	p.assumeOrStop(smt.Implies(smt.Eq(smt.IMul(two, diff), pow2(29)), smt.Eq(smt.IMod(k32, two), smt.ConstIntU(0))))
 	return XF{k: smt.IMul(pow2(29), k32), e: x.e}
+}
+
+// ---------------------------------------------------------------- general dyadic arithmetic
+//
+// Every XF is an exact dyadic rational m * 2^e (m an Int term, e a constant):
+// the integer form has e = 0, the rounded form has m = k. A float operation
+// computes the exact rational result num/den * 2^e (linear in the symbolic
+// operand because the other operand, or the exponent, is constant on the
+// path) and xfRound states its IEEE rounding to nearest-even by linear
+// constraints after forking on the binade of the result. Values are
+// non-negative throughout (the code under test formats unsigned counters);
+// a feasibly negative value aborts the path.
+
+func (x XF) dy() (*smt.Term, int) {
+	if x.exact != nil {
+		return x.exact, 0
+	}
+	return x.k, x.e
+}
+
+// xfConst decomposes a non-negative finite constant double.
+func (p *Path) xfConst(f float64) XF {
+	if f < 0 || math.IsNaN(f) || math.IsInf(f, 0) {
+		p.abortf("Int back end: float constant %v is not lowered", f)
+	}
+	if f == math.Trunc(f) && f < 1.9e19 {
+		bi, _ := new(big.Float).SetFloat64(f).Int(nil)
+		return XF{exact: smt.ConstInt(bi)}
+	}
+	frac, exp := math.Frexp(f) // f = frac * 2^exp, 0.5 <= frac < 1
+	m := new(big.Int).SetUint64(uint64(math.Ldexp(frac, 53)))
+	return XF{k: smt.ConstInt(m), e: exp - 53}
+}
+
+func shl(t *smt.Term, n int) *smt.Term {
+	if n == 0 {
+		return t
+	}
+	return smt.IMul(pow2(n), t)
+}
+
+// xfRound returns the double nearest to num/den * 2^e (den a positive constant).
+func (p *Path) xfRound(num *smt.Term, den *big.Int, e int) XF {
+	zero := smt.ConstIntU(0)
+	if p.branch(smt.ILt(num, zero)) {
+		p.abortf("Int back end: negative float value")
+	}
+	if p.branch(smt.Eq(num, zero)) {
+		return XF{exact: zero}
+	}
+	D := smt.ConstInt(den)
+	two := smt.ConstIntU(2)
+	// an integer below 2^53 is exact
+	if den.Cmp(big.NewInt(1)) == 0 && e >= 0 && e < 53 {
+		if p.branch(smt.ILt(shl(num, e), pow2(53))) {
+			return XF{exact: shl(num, e)}
+		}
+	}
+	var bs []int
+	var ge1 *smt.Term
+	if e >= 0 {
+		ge1 = smt.ILe(D, shl(num, e))
+	} else {
+		ge1 = smt.ILe(shl(D, -e), num)
+	}
+	if p.branch(ge1) {
+		for b := -52; b <= 20; b++ {
+			bs = append(bs, b)
+		}
+	} else {
+		for b := -53; b >= -130; b-- {
+			bs = append(bs, b)
+		}
+	}
+	for _, b := range bs {
+		s := e - b
+		var lhs, unit *smt.Term // compare lhs against k*unit
+		if s >= 0 {
+			lhs, unit = shl(num, s), D
+		} else {
+			lhs, unit = num, shl(D, -s)
+		}
+		in := smt.And(smt.ILe(smt.IMul(pow2(52), unit), lhs), smt.ILt(lhs, smt.IMul(pow2(53), unit)))
+		if !p.branch(in) {
+			continue
+		}
+		k := p.fresh(fmt.Sprintf("fl.k(b=%d)", b), smt.IntS, "int")
+		p.assumeOrStop(smt.And(smt.ILe(pow2(52), k), smt.ILe(k, pow2(53))))
+		diff := iabs(smt.ISub(smt.IMul(k, unit), lhs))
+		p.assumeOrStop(smt.ILe(smt.IMul(two, diff), unit))
+		p.assumeOrStop(smt.Implies(smt.Eq(smt.IMul(two, diff), unit), smt.Eq(smt.IMod(k, two), zero)))
+		return XF{k: k, e: b}
+	}
+	p.abortf("Int back end: float result outside the supported binades [2^-78, 2^73)")
+	return XF{}
+}
+
+func (p *Path) xfAddSub(a, b XF, sub bool) XF {
+	m1, e1 := a.dy()
+	m2, e2 := b.dy()
+	em := e1
+	if e2 < em {
+		em = e2
+	}
+	x, y := shl(m1, e1-em), shl(m2, e2-em)
+	var num *smt.Term
+	if sub {
+		num = smt.ISub(x, y)
+	} else {
+		num = smt.IAdd(x, y)
+	}
+	return p.xfRound(num, big.NewInt(1), em)
+}
+
+func (p *Path) xfMul(a, b XF) XF {
+	m1, e1 := a.dy()
+	m2, e2 := b.dy()
+	if !m1.IsConst() && !m2.IsConst() {
+		p.abortf("Int back end: product of two symbolic floats is not linear")
+	}
+	return p.xfRound(smt.IMul(m1, m2), big.NewInt(1), e1+e2)
+}
+
+// xfQuo is the general quotient by a positive constant.
+func (p *Path) xfQuo(a, b XF) XF {
+	if a.exact != nil && b.exact != nil {
+		return p.xfDiv(a, b)
+	}
+	m1, e1 := a.dy()
+	m2, e2 := b.dy()
+	if !m2.IsConst() || m2.Big.Sign() <= 0 {
+		p.abortf("Int back end: only divisions by a positive constant are lowered")
+	}
+	return p.xfRound(m1, m2.Big, e1-e2)
+}
+
+// xfCmp lowers a < b (lt) or a <= b.
+func (p *Path) xfCmp(a, b XF, strict bool) *smt.Term {
+	m1, e1 := a.dy()
+	m2, e2 := b.dy()
+	em := e1
+	if e2 < em {
+		em = e2
+	}
+	x, y := shl(m1, e1-em), shl(m2, e2-em)
+	if strict {
+		return smt.ILt(x, y)
+	}
+	return smt.ILe(x, y)
+}
+
+// xfToIntegral lowers math.RoundToEven (0), Round (1), Ceil (2), Floor (3),
+// Trunc (4) for a non-negative value; the result is an exact integer.
+func (p *Path) xfToIntegral(x XF, mode int) XF {
+	m, e := x.dy()
+	if e >= 0 {
+		return XF{exact: shl(m, e)}
+	}
+	s := -e
+	zero, two := smt.ConstIntU(0), smt.ConstIntU(2)
+	d := p.fresh("fl.int", smt.IntS, "int")
+	p.assumeOrStop(smt.ILe(zero, d))
+	sd := shl(d, s)
+	switch mode {
+	case 3, 4:
+		p.assumeOrStop(smt.And(smt.ILe(sd, m), smt.ILt(m, shl(smt.IAdd(d, smt.ConstIntU(1)), s))))
+	case 2:
+		p.assumeOrStop(smt.And(smt.ILt(shl(smt.ISub(d, smt.ConstIntU(1)), s), m), smt.ILe(m, sd)))
+	default:
+		diff := iabs(smt.ISub(sd, m))
+		p.assumeOrStop(smt.ILe(smt.IMul(two, diff), pow2(s)))
+		tie := smt.Eq(smt.IMul(two, diff), pow2(s))
+		if mode == 1 {
+			p.assumeOrStop(smt.Implies(tie, smt.ILe(m, sd))) // half away from zero
+		} else {
+			p.assumeOrStop(smt.Implies(tie, smt.Eq(smt.IMod(d, two), zero)))
+		}
+	}
+	return XF{exact: d}
 }
